@@ -168,3 +168,14 @@ def run(prog, rep):
             rep.ok("C02.R5", "crate", "lemma %s holds in this run" % l, "evaluated: ok", nontrivial=False)
         else:
             rep.violation("C02.R5", "crate", "lemma:%s" % l, "crate", "lemma %s is %s in this run" % (l, st))
+
+
+def _lemma(prog):
+    from ..engine import Report
+    rep = Report("C02")
+    rep.set_config(prog.config)
+    guarded(rep, "C02.R1", SLOW, lambda: _check(prog, rep))
+    return not rep.violations
+
+
+lemmas.register("C02", _lemma)
